@@ -406,7 +406,7 @@ package tally
 //@   ensures @quiet quiet()
 
 //@ func newBucketStorage
-//@   property C03, C20
+//@   property C03, C20, C11
 //@   allocs
 //@   witness sv []float64 = callee BucketPairs.sv
 //@   witness sd []time.Duration = callee BucketPairs.sd
@@ -429,7 +429,7 @@ package tally
 //@   loop 1 invariant @quiet quiet()
 
 //@ func newHistogram
-//@   property C03, C01
+//@   property C03, C01, C11
 //@   allocs
 //@   emits
 //@   requires len(storage.hbuckets) >= 1
@@ -584,7 +584,7 @@ package tally
 //@   ensures @recurrence forall j int :: 0 <= j && j + 1 < n ==> result[j+1] == f2i(time.Duration, f64(result[j]) * factor)
 
 //@ func bucketsEqual
-//@   property C20
+//@   property C20, C11
 //@   requires x == nil || is(x, DurationBuckets) || is(x, ValueBuckets)
 //@   ensures @duration is(x, DurationBuckets) ==> (result <==> (is(y, DurationBuckets) && len(db(x)) == len(db(y)) && (forall j int :: 0 <= j && j < len(db(x)) ==> db(x)[j] == db(y)[j])))
 //@   ensures @value is(x, ValueBuckets) ==> (result <==> (is(y, ValueBuckets) && len(vb(x)) == len(vb(y)) && (forall j int :: 0 <= j && j < len(vb(x)) ==> vb(x)[j] == vb(y)[j])))
@@ -607,7 +607,7 @@ package tally
 //@   inv @stored_storages_are_derived_from_their_own_spec c.cache != nil && (forall id uint64 :: id in c.cache ==> storageWF(c.cache[id]))
 
 //@ func (*bucketCache).Get
-//@   property C20, C09, C03
+//@   property C20, C09, C03, C11
 //@   allocs
 //@   requires c != nil && buckets != nil && specOK(buckets)
 //@   modifies c.cache
@@ -718,14 +718,14 @@ package tally
 //@   ensures @no_cached_reporter_no_calls s.cachedReporter == nil ==> quiet()
 
 //@ func (*scope).histogram
-//@   property C09, C05
+//@   property C09, C05, C11
 //@   requires scopeWF(s)
 //@   acquires s.hm
 //@   ensures @found result1 ==> is(result0, *histogram) && dyn(result0, *histogram) != nil && sanitizedName in s.histograms && dyn(result0, *histogram) == s.histograms[sanitizedName]
 //@   ensures @quiet quiet()
 
 //@ func (*scope).Histogram
-//@   property C09, C05, C04, C06, C20, C03
+//@   property C09, C05, C04, C06, C20, C03, C11
 //@   emits
 //@   allocs
 //@   requires scopeWF(s) && specOK(s.defaultBuckets) && s.defaultBuckets != nil
